@@ -1,5 +1,5 @@
 /- L0 facts about Minimum::reset (split from Lemmas/Minimum.lean so that a change to one method only invalidates the facts about that method) -/
-import TaRs.Lemmas.Minimum
+import TaRs.Lemmas.Core.Minimum
 set_option linter.unusedSectionVars false
 namespace TaRs.Gen.Minimum
 open TaRs TaRs.Rs
